@@ -27,6 +27,23 @@ type pending struct{ lines []string }
 
 var batch []pending
 
+// report records a failure. The binary serves C07, C08 and C09 (runner filter `only_kinds`), and
+// vlib keeps at most 50 failures: every kind prefix (c07- c08- c09- comb-) gets its own quota, so that
+// a flood of failures of one property cannot push the failures of another one out of the result.
+var perPrefix = map[string]int{}
+
+func report(f vlib.Failure) {
+	pre := strings.SplitN(f.Kind, "-", 2)[0]
+	if perPrefix[pre] >= 12 {
+		return
+	}
+	n := len(res.Failures)
+	res.Fail(f)
+	if len(res.Failures) > n {
+		perPrefix[pre]++
+	}
+}
+
 func classOf(kind string) string {
 	f := strings.Split(kind, "-")
 	if len(f) >= 2 {
@@ -127,13 +144,13 @@ func runMonitors(lines []string) {
 		reported := false
 		for _, g := range monitor(small) {
 			if classOf(g.kind) == cl {
-				res.Fail(toFailure(g, small))
+				report(toFailure(g, small))
 				reported = true
 				break
 			}
 		}
 		if !reported {
-			res.Fail(toFailure(f, lines))
+			report(toFailure(f, lines))
 		}
 	}
 }
@@ -208,7 +225,7 @@ func flush() {
 			if len(c.builds) > 0 && len(c.builds[0]) > 0 {
 				stages = stageNames(c.builds[0])
 			}
-			res.Fail(vlib.Failure{Source: "correspondence", Kind: "comb-model-differs-" + c.mode + "-" + stages,
+			report(vlib.Failure{Source: "correspondence", Kind: "comb-model-differs-" + c.mode + "-" + stages,
 				What: fmt.Sprintf("line %d %q: impl %q, model %q", j, at(small, j), a, b), Case: small})
 		}
 	}
@@ -610,7 +627,7 @@ func reportAgree(toks []string) {
 			f = fs[0]
 			lines = []string{"agree " + strings.Join(small, " ")}
 		}
-		res.Fail(toFailure(f, lines))
+		report(toFailure(f, lines))
 	}
 }
 
@@ -906,7 +923,14 @@ func main() {
 		"every consumer stop point and every Next/Peek interleaving (inputs up to length 4); every combinator x fault position 0..len x "+
 		"{source error, callback error, expired ctx, transient, two faults}")
 	onHang = func(lines []string) {
-		res.Fail(vlib.Failure{Source: "monitor", Kind: "c07-hang", What: "the case did not finish within 20 s (a combinator loops for ever)", Case: lines})
+		// the run ends here: say so under the property the case belongs to (fault-free: C07, with faults:
+		// C08) and, as a broken tie that no only_kinds filter drops, for every property this binary serves
+		kind := "c07-hang"
+		if c, ok := parseCase(lines); ok && len(c.builds) > 0 && len(c.builds[0]) > 0 && (hasFaultScript(c.builds[0]) || hasBang(c.builds[0])) {
+			kind = "c08-hang"
+		}
+		res.Fail(vlib.Failure{Source: "monitor", Kind: kind, What: "the case did not finish within 20 s (a combinator loops for ever)", Case: lines})
+		res.Fail(vlib.Failure{Source: "correspondence", Kind: "comb-run-aborted-by-hang", What: "the harness stopped at a case that did not finish within 20 s; the remaining cases were not run", Case: lines})
 		res.Write(env.Out)
 		os.Exit(0)
 	}
